@@ -308,6 +308,14 @@ def run(chk):
         open(p, 'wb').write(fontd)
         keep[p] = 'class map: %d classes (%d linear), %d data words, 16-bit offsets step %d written modulo 65536' % (ncls, nlin, ndata, step)
         cases.append('cl%d api %s %d %s - info' % (len(cases), p, rng.choice((0, 2)), 'cb'))
+    # passes whose rule count and sort keys are at their 16-bit limits: sums and products of font-supplied counts must not overflow (F30)
+    for k, (nr, sk) in enumerate(((40000, 0xFFFF), (65535, 0xFFFF), (32769, 0xFFFF), (65535, 63), (65535, 64), (20000, 0x8000), (1, 0xFFFF), (65535, 1))):
+        if not thorough and k >= 5:
+            break
+        p = os.path.join(tmp, 'mr%d.ttf' % k)
+        open(p, 'wb').write(K2.replace_table(cbase, b'Silf', K2.silf_many_rules(nr, sk)))
+        keep[p] = 'one pass with %d rules, every sort key %#x, empty code' % (nr, sk)
+        cases.append('mr%d api %s %d %s - info' % (len(cases), p, 0, 'cb'))
     # compressed tables: the LZ4 block families of the C14 check (valid, mutated, boundary blocks at every guard), wrapped as a compressed
     # Silf (version 5) or Glat (version 3) table of a real font and loaded through the whole face constructor
     from props import c14, fontkit as K
